@@ -1373,10 +1373,17 @@ class SVG:
     def _remove_orphaned_gradients(self):
         # remove orphaned templates, only keep gradients directly referenced by shapes
         used_gradient_ids = set()
-        for shape in self.shapes():
-            if shape.fill.startswith("url("):
+        fills = [shape.fill for shape in self.shapes()]
+        # text that is passed through as it is (allow_text) may be painted with a gradient too
+        fills.extend(
+            el.attrib["fill"]
+            for el in self.xpath("//svg:text | //svg:tspan | //svg:textPath")
+            if "fill" in el.attrib
+        )
+        for fill in fills:
+            if fill.startswith("url("):
                 try:
-                    el = self.resolve_url(shape.fill, "*")
+                    el = self.resolve_url(fill, "*")
                 except ValueError:  # skip not found
                     continue
                 if strip_ns(el.tag) not in _GRADIENT_CLASSES:
